@@ -76,6 +76,7 @@ type Config struct {
 		Reason string `json:"reason"`
 	} `json:"not_applicable"`
 	HookCommits []string `json:"hook_commits"`
+	Ready       []string `json:"ready"` // checks claimed in MANIFEST.json (others are still being validated)
 }
 
 // Finding is an entry of known_findings.json.
@@ -893,6 +894,15 @@ func writeManifest(cfg *Config) {
 	for _, c := range cfg.Checks {
 		if !strings.Contains(string(pall), `"id": "`+c.ID+`"`) && !strings.Contains(string(pall), `"id":"`+c.ID+`"`) {
 			continue // development-only check ids are not part of the interface
+		}
+		isReady := false
+		for _, id := range cfg.Ready {
+			if id == c.ID {
+				isReady = true
+			}
+		}
+		if !isReady {
+			continue
 		}
 		claimed[c.ID] = true
 		checks = append(checks, map[string]any{
